@@ -499,6 +499,10 @@ def run(rep: Report) -> None:
     from .c06 import immutability
     rep.rule("R06.6", "value objects carry no state assigned outside their constructors (no cached hash: equal quantities hash equal in every process) - shared with C06", floor=10)
     immutability(rep, prog, resolver)
+    from .c05 import check_factor_sign
+    rep.rule("R05.11", "the conversion behind a mixed-unit comparison applies each factor with the sign of the dimension _splat files it under (shared "
+             "with C05): an inverted ratio makes the order of two quantities depend on the units they are written in", floor=6)
+    check_factor_sign(rep, prog)
     check_comparisons(rep, prog, resolver, "R06.2")
     rep.assume("Quantity equality/ordering compare physical values (R06.2); Python's reflected-operand protocol for NotImplemented")
     rep.not_decided += ["trichotomy and sorted() on physical values numerically (floating-point ties)",
